@@ -31,6 +31,8 @@ pub enum Op {
     /// (index into the opened streams, payload length)
     Data(u16, usize),
     Heart,
+    /// the peer sends a keep-alive request: the session's answer is a packet like any other
+    PeerHeart,
 }
 
 #[derive(Clone, Debug, Serialize, Deserialize)]
@@ -38,6 +40,9 @@ pub struct WireCase {
     pub scheme: SchemeGen,
     pub ops: Vec<Op>,
     pub draw_seed: u64,
+    /// the transport's k-th write call accepts at most this many bytes (empty: everything)
+    #[serde(default)]
+    pub write_sizes: Vec<usize>,
 }
 
 pub struct WireFam;
@@ -55,6 +60,7 @@ pub fn ops_strategy(max_ops: usize) -> BoxedStrategy<Vec<Op>> {
         2 => Just(Op::Unbuffer),
         6 => (any::<u16>(), len).prop_map(|(i, l)| Op::Data(i, l)),
         1 => Just(Op::Heart),
+        1 => Just(Op::PeerHeart),
     ];
     proptest::collection::vec(op, 0..max_ops).boxed()
 }
@@ -77,16 +83,24 @@ pub struct WireRun {
 
 /// Drive a real client session through `ops`; checks C04's oracles and returns the record for C05.
 pub fn drive(scheme_text: &str, ops: &[Op], draw_seed: u64, out: &mut Outcome) -> Result<WireRun, Fail> {
+    drive_on(scheme_text, ops, draw_seed, &[], out)
+}
+
+/// As `drive`, over a transport whose k-th write call accepts at most `write_sizes[k % len]` bytes
+/// (empty: everything): short writes, as a socket under back-pressure produces them.
+pub fn drive_on(scheme_text: &str, ops: &[Op], draw_seed: u64, write_sizes: &[usize], out: &mut Outcome) -> Result<WireRun, Fail> {
+    let write_sizes = write_sizes.to_vec();
     let scheme_text = scheme_text.to_string();
     let ops = ops.to_vec();
     alloc_guard::reset();
     let res = run_virtual(async move {
         install_draw(draw_seed);
-        let mut l = link(PipeParams { capacity: 16 << 20, ..Default::default() }, PipeParams::default());
+        let mut l = link(PipeParams { capacity: 16 << 20, write_sizes, ..Default::default() }, PipeParams::default());
         let pad = padding(&scheme_text);
         let md5 = format!("{:x}", md5::compute(scheme_text.as_bytes()));
         let sess = client_session(&mut l, pad, None);
         let h = l.c2s.clone();
+        let mut peer_w = l.s_w.take().unwrap();
         let mut expected: Vec<RFrame> = Vec::new();
         let mut flushed = 0usize; // how many expected frames must already be on the wire
         let mut buffering = true;
@@ -139,6 +153,17 @@ pub fn drive(scheme_text: &str, ops: &[Op], draw_seed: u64, out: &mut Outcome) -
                     let data = keyed(sid, 0, calls.len() as u64 * 1_000_003, *len);
                     expected.extend(rc::psh_frames(sid, &data));
                     within(WATCHDOG, sess.write_data_frame(sid, Bytes::from(data))).await
+                }
+                Op::PeerHeart => {
+                    use tokio::io::AsyncWriteExt;
+                    name = "answer to the peer's HeartRequest".to_string();
+                    expected.push(RFrame::ctl(rc::HEART_RESP, 0));
+                    if peer_w.write_all(&rc::encode(&RFrame::ctl(rc::HEART_REQ, 0))).await.is_err() {
+                        return Err(Fail::new("C04.nofail", "C04.nofail:err:peer-heart", "the session closed its receiving side"));
+                    }
+                    // the receive task reads the request and answers
+                    settle(tokio::time::Duration::from_millis(20)).await;
+                    Some(Ok(()))
                 }
                 Op::Heart => {
                     name = "write_control_frame(HeartRequest)".to_string();
@@ -254,14 +279,19 @@ impl Family for WireFam {
         "wire"
     }
     fn strategy(&self, _tier: Tier) -> BoxedStrategy<WireCase> {
-        (scheme(size_any(), 8), ops_strategy(12), any::<u64>())
-            .prop_map(|(scheme, ops, draw_seed)| WireCase { scheme, ops, draw_seed })
+        let short = prop_oneof![
+            3 => Just(Vec::new()),
+            1 => proptest::collection::vec(prop_oneof![Just(7usize), Just(8), Just(256), 64usize..5000], 1..5),
+        ];
+        (scheme(size_any(), 8), ops_strategy(12), any::<u64>(), short)
+            .prop_map(|(scheme, ops, draw_seed, write_sizes)| WireCase { scheme, ops, draw_seed, write_sizes })
             .boxed()
     }
     fn run(&self, case: &WireCase, _cx: &CaseCtx) -> CaseResult {
         let mut out = Outcome::new();
         let text = case.scheme.text();
-        let run = drive(&text, &case.ops, case.draw_seed, &mut out)?;
+        let run = drive_on(&text, &case.ops, case.draw_seed, &case.write_sizes, &mut out)?;
+        out.class_if(!case.write_sizes.is_empty(), "transport-takes-short-writes");
         // classes that need the scheme
         if let Some(s) = crate::reference::scheme::RefScheme::parse(text.as_bytes()) {
             let mut pkt = 0u32;
